@@ -1751,7 +1751,16 @@ impl<'de> de::MapAccess<'de> for Compound<'_, 'de> {
                     self.de.expect_type = expect.0.clone();
                     self.de.wire_type = wire.0.clone();
                 }
-                seed.deserialize(&mut *self.de).map(Some)
+                // The big-number shortcut is about this map's values: it must not decide how
+                // the key is read.
+                #[cfg(feature = "bignum")]
+                let value_fast = self.de.bignum_vec_fast_path.take();
+                let key = seed.deserialize(&mut *self.de).map(Some);
+                #[cfg(feature = "bignum")]
+                {
+                    self.de.bignum_vec_fast_path = value_fast;
+                }
+                key
             }
             _ => Err(Error::msg("expect struct or map")),
         }
@@ -1769,14 +1778,11 @@ impl<'de> de::MapAccess<'de> for Compound<'_, 'de> {
                 if !any_fast {
                     self.de.add_cost(3)?;
                 }
-                #[cfg(feature = "bignum")]
-                let value_fast = self.de.bignum_vec_fast_path.is_some();
-                #[cfg(not(feature = "bignum"))]
-                let value_fast = false;
-                if !value_fast {
-                    self.de.expect_type = expect.1.clone();
-                    self.de.wire_type = wire.1.clone();
-                }
+                // The text shortcut is about this map's keys: the value is read at its own
+                // types, whatever was read for the key.
+                self.de.text_fast_path = false;
+                self.de.expect_type = expect.1.clone();
+                self.de.wire_type = wire.1.clone();
                 seed.deserialize(&mut *self.de)
             }
             _ => {
